@@ -49,7 +49,7 @@ impl BatchInstanceRequestHandler {
         ));
         let service_name = Arc::new(request.service_name.unwrap_or_default());
 
-        let namesapce_id = Arc::new(NamingUtils::default_group(
+        let namesapce_id = Arc::new(NamingUtils::default_namespace(
             request.namespace.unwrap_or_default(),
         ));
         let input = request.instances;
